@@ -1761,7 +1761,11 @@ func (b *RaftBackend) applyLog(ctx context.Context, command *LogData) error {
 	} else {
 		lowestActiveIndex = b.fsm.fastTxnTracker.lowestActiveIndex()
 	}
-	lowestActiveIndex = min(b.raft.AppliedIndex(), lowestActiveIndex) // we need to cap the lowest active index, otherwise we might miss transaction started concurrently
+	// We need to cap the lowest active index, otherwise we might miss a
+	// transaction started concurrently. Such a transaction captures the index
+	// the FSM has applied, which trails raft.AppliedIndex() by the batches
+	// still queued for the FSM, so that is the index to cap with.
+	lowestActiveIndex = min(b.fsm.latestIndex.Load(), lowestActiveIndex)
 	command.LowestActiveIndex = new(lowestActiveIndex)
 
 	isTx := len(command.Operations) > 0 && command.Operations[0].OpType == beginTxOp
